@@ -1283,6 +1283,7 @@ func (r *raft) removeNode(replicaID uint64) {
 	r.deleteRemote(replicaID)
 	r.deleteNonVoting(replicaID)
 	r.deleteWitness(replicaID)
+	r.readIndex.removeConfirmation(replicaID)
 	r.clearPendingConfigChange()
 	// step down as leader once it is removed
 	if r.replicaID == replicaID && r.isLeader() {
